@@ -378,11 +378,13 @@ func main() {
 	r.Set("query_types", len(dnsgen.QTypes()))
 	r.Set("failing_comparisons", c.min.Failing)
 	r.Set("failing_comparisons_not_minimal", nonmin)
-	r.Set("rule", fmt.Sprintf("base file = skeleton + every subset of <=1 item of the first %d pool items (quick) / <=1 of all %d and <=2 of the first %d (thorough); edits per base (thorough; quick applies a fixed sub-list, see distinct_edits): 17 added lines x tags {aa, bb} (address at the queried name, apex, glue host, apex server host, MX host, neighbour; NS at apex / delegation point / queried leaf / com / root; SOA at apex; nested zone; wildcards at apex and under w; CNAME; MX), 8 subnets added to maps no name selects (ids b1 < c1,m1,m2 < z1; ::/0, 0.0.0.0/0, a subnet holding the unlocated client, a subnet holding the aa client), and delete / change-rdata-and-TTL of every tagged line the base holds (probe addresses of the skeleton, tagged items). An edit tagged T is applied for a client only if T is outside every location the base's maps can put that client into (skeleton assignment + the items' declared re-locations, a conservative superset); map edits are applied for all clients. Each base and each edited file is compiled to cdb, rdb-v1, rdb-v2 and served by the real handler (maxAnswer=%d, constant random source) for every (name of the %d-name universe) x (9 qtypes) x (applicable client); states = base + edited files; transitions = queries served; evaluations = before/after comparisons; nontrivial = comparisons whose 'before' response is not REFUSED. Only minimal cases are reported (no sub-base leaks for the same backend, kind, edit, query, client).", nQuick, len(basePool), nPair, dnsgen.MaxAnswer, len(dnsgen.Names())))
+	r.Set("rule", fmt.Sprintf("base file = skeleton + every subset of <=1 item of the first %d pool items (quick) / <=1 of all %d and <=2 of the first %d (thorough); edits per base (thorough; quick applies a fixed sub-list, see distinct_edits): 17 added lines x tags {aa, bb} (address at the queried name, apex, glue host, apex server host, MX host, neighbour; NS at apex / delegation point / queried leaf / com / root; SOA at apex; nested zone; wildcards at apex and under w; CNAME; MX), 6 of them (leaf address, NS and SOA at the apex, apex wildcard, nested zone, glue address) x tags {AA, \\341\\341, \\000\\001, \\003\\054} = location ids that are the upper-case / high-bit twin of aa, start with NUL, or look like a label length and a field separator (foreign to every client but the resolver that base item xloc puts into that very location; base xloc also makes every aa/bb-tagged edit foreign to resolvers in those four locations), 12 subnets added to maps no name selects (ids b1 < c1,e9,m1,m2,r1 < z1: ::/0, 0.0.0.0/0, a subnet holding the unlocated client, a subnet holding the aa client; ids M1 and \\355\\061 = upper-case and high-bit twin of the skeleton's map id m1: the last two subnets), and delete / change-rdata-and-TTL of every tagged line the base holds (probe addresses of the skeleton, tagged items). An edit tagged T is applied for a client only if T is outside every location the base's maps can put that client into (skeleton assignment + the items' declared re-locations, a conservative superset); map edits are applied for all clients. Each base and each edited file is compiled to cdb, rdb-v1, rdb-v2 and served by the real handler (maxAnswer=%d, constant random source) for every (name of the %d-name universe, which holds names 12 labels below the apex, the wildcard under w, the nested zone and the delegation) x (9 qtypes) x (applicable client), and 4 names of 32..121 labels / 255 octets x (A, TXT) x (applicable client); states = base + edited files; transitions = queries served; evaluations = before/after comparisons; nontrivial = comparisons whose 'before' response is not REFUSED. Only minimal cases are reported (no sub-base leaks for the same backend, kind, edit, query, client).", nQuick, len(basePool), nPair, dnsgen.MaxAnswer, len(dnsgen.Names())))
 	r.Assume = []string{
 		"which locations a client can be in is taken from the generator's declaration of the maps (skeleton: 10/8->aa, 192.168/16->bb; items ecs, m2, mxw, d*), not from the server",
 		"the db package's random source is replaced by a constant; additional-section addresses at names with more than one visible address are compared by owner/type/count only",
 		"bases with more than 2 optional items, edits of more than one line, and cc-tagged added lines are outside the bound (cc-tagged lines are covered by delete/change of the skeleton's cc probe)",
+		"only edits of FOREIGN records are applied: how the records of the client's own location and the untagged ones are combined (order, split zone cuts, which of two SOAs) is not observable by this relation; it is compared across readers by C02 and against the reference interpreter by C01",
+		"location and map ids other than aa, bb, cc, AA, \\341\\341, \\000\\001, \\003\\054 / b1, c1, e9, m1..m3, r1, z1, M1, \\355\\061 are outside the alphabet",
 	}
 	r.Finish()
 }
